@@ -377,6 +377,9 @@ func (f *Face) glyphDataFromGlyf(glyph gID) (GlyphOutline, error) {
 	}
 	var points []contourPoint
 	f.getPointsForGlyph(glyph, 0, &points)
+	if len(points) < phantomCount { // a component could not be resolved
+		return GlyphOutline{}, errGlyphOutOfRange(glyph)
+	}
 	segments := buildSegments(points[:len(points)-phantomCount])
 	return GlyphOutline{Segments: segments}, nil
 }
